@@ -12,7 +12,7 @@ def render_wcase(c, r, step, limit):
             ops.append("Flush")
             continue
         m = "Good %s" % coq_bytes(bytes.fromhex(orc["good"])) if "good" in orc else "BadKey %d%%nat" % orc["bad"]
-        ops.append("%s (%s)" % ("Enqueue" if op[0] == "enq" else "Send", m))
+        ops.append("%s (%s)" % ("Enqueue" if op[0] in ("enq", "cenq") else "Send", m))
     expect = ["[%d;%d;%d]" % (WRES.get(o["res"], 99), o["st"][0], o["st"][1]) for o in r["ops"]]
     before = [str(o["before"][1]) for o in r["ops"]]
     script = ["true" if b else "false" for b in c.get("wscript", [])]
